@@ -27,7 +27,10 @@ class BodyError(Exception):
 
 
 class WouldBlock(BaseException):
-    """a provider lock is not available and nobody who could release it can run: the caller would wait for ever"""
+    """a provider lock is not available and nobody who could release it can run: the caller would wait for ever.
+    live_cycle: the lock is held by a session that is itself still running and waiting (two live sessions that take the
+    locks of two databases in opposite order): an ordinary deadlock of the application, not a leaked lock"""
+    live_cycle = False
 
 
 # ---------------------------------------------------------------------------------------------- instrumented lock
@@ -143,12 +146,17 @@ class Scheduler(object):
         while self.current != i:
             if self.current == 'deadlock' and self.state[i] == 'blocked':
                 lock = self.waiting_for[i]
+                holder = self.idents.get(lock.holder)
+                live = (holder is not None and holder != i and self.state[holder] == 'blocked'
+                        and lock.env.labels.get(lock.holder) == lock.holder_label)
                 self.state[i] = 'ready'
                 self.waiting_for[i] = None
                 # let the blocked actors fail one after the other
                 self.current = i
-                raise WouldBlock('%s is held by %s and every thread that is still running waits for it'
-                                 % (lock.name, lock.holder_label))
+                e = WouldBlock('%s is held by %s and every thread that is still running waits for it'
+                               % (lock.name, lock.holder_label))
+                e.live_cycle = live
+                raise e
             self.cv.wait()
 
     def start(self, i):
@@ -550,8 +558,12 @@ def run_actors_case(template, path, actors, schedule, plan, info=None):
                     try:
                         exc = run_session(env, sess, 10 * i + si, sched.yield_)
                     except WouldBlock as e:
-                        results[i] = '%s would block for ever: %s' % (lab, e)
-                        return
+                        if not e.live_cycle:
+                            results[i] = '%s would block for ever: %s' % (lab, e)
+                            return
+                        exc = e          # deadlock between two live sessions: this one gives up, like a deadlock victim
+                        if info is not None:
+                            info['live_deadlocks'] = info.get('live_deadlocks', 0) + 1
                     msg = internal_failure(env, exc, lab)
                     env.history.append((lab, 'ok' if exc is None else type(exc).__name__))
                     if msg:
@@ -562,7 +574,7 @@ def run_actors_case(template, path, actors, schedule, plan, info=None):
                     if msg:
                         results[i] = msg
                         return
-                    if exc is not None and info is not None and not faultdb.is_injected(exc):
+                    if exc is not None and info is not None and not faultdb.is_injected(exc) and not isinstance(exc, WouldBlock):
                         info.setdefault('natural_errors', []).append('%s: %s' % (type(exc).__name__, str(exc)[:100]))
                     sched.yield_()
             except WouldBlock as e:
